@@ -49,6 +49,16 @@ def slog(I, kind, e, ok, detail=""):
     SAFETY_LOG.append({"kind": kind, "spx": (e or {}).get("spx"), "sp": FX.short((e or {}).get("sp")), "fn": I.fn_stack[-1] if I.fn_stack else "", "ok": bool(ok), "detail": detail, "F": id(I.F)})
 
 
+def pow2_eq(a, b):
+    """equality modulo 2^x algebra (pow2 is an opaque function elsewhere): 2*pow2(j) == pow2(j+1)"""
+    f = sfun("pow2")
+    un = lambda x: sp.sympify(x).replace(lambda t: getattr(t, "func", None) == f, lambda t: sp.Integer(2) ** t.args[0])
+    try:
+        return sp.simplify(sp.powsimp(sp.expand(un(a) - un(b)))) == 0
+    except Exception:
+        return False
+
+
 class ReturnSignal(Exception):
     def __init__(self, val):
         self.val = val
@@ -59,6 +69,10 @@ class BreakSignal(Exception):
 
 
 class ContinueSignal(Exception):
+    pass
+
+
+class _RetryIndexRec(Exception):
     pass
 
 
@@ -477,7 +491,11 @@ class Interp:
             return
         if not (isinstance(b, Vec) and isinstance(idx, IntV)):
             raise Unanalysable(f"indexed write {idx!r} into {b!r}")
-        self.log_index(b, idx, e)
+        real_len = next((lc_["irec_len"][base_ref.root_id] for lc_ in reversed(self.loop_ctx) if base_ref.root_id in lc_.get("irec_len", {})), None)
+        if real_len is not None:
+            slog(self, "index", e, le(0, idx.e, self.bounds) and lt(idx.e, real_len, self.bounds), f"index {sp.expand(idx.e)} into length {real_len}")
+        else:
+            self.log_index(b, idx, e)
         if self.scatter is not None:
             self.scatter.append({"target": base_ref.desc, "root": base_ref.root_id, "idx": idx.e, "value": v, "old": ssym("OLD:" + base_ref.desc), "where": FX.short((e or {}).get("sp")), "loops": [(lc["isym"], lc["n"]) for lc in self.loop_ctx if lc.get("isym") is not None]})
             return
@@ -644,6 +662,12 @@ class Interp:
     def ev_Index(self, e, env):
         b = self.ev(e["base"], env)
         i = self.ev(e["idx"], env)
+        if self.loop_ctx and isinstance(b, Vec):
+            # remembered per enclosing summarised loop: a read of an element that another iteration writes is a
+            # cross-iteration dependence the element-wise write schema cannot express
+            for lc_ in self.loop_ctx:
+                if "reads" in lc_:
+                    lc_["reads"].append((b, i, e))
         return self.index_val(b, i, e)
 
     def ev_Struct(self, e, env):
@@ -790,7 +814,7 @@ class Interp:
         l = self.ev(e["l"], env)
         r = self.ev(e["r"], env)
         ci = FX.callee_info(e)
-        if ci.get("resolved_local") and isinstance(l, (Struct, Enum)):
+        if ci.get("resolved_local") and isinstance(l, (Struct, Enum, Opaque)):
             return self.call_fn(ci["resolved"], [l, r], e)
         return self.binop(op, l, r, e)
 
@@ -848,6 +872,10 @@ class Interp:
                     return BoolV(Cond("eq", sp.expand(a), sp.expand(b)))
                 if op == "!=":
                     return BoolV(Cond("eq", sp.expand(a), sp.expand(b)).negate())
+        if op == "*" and isinstance(l, Pt) and isinstance(r, Sc):
+            return l.scale(r.e)
+        if op == "*" and isinstance(l, Sc) and isinstance(r, Pt):
+            return r.scale(l.e)
         if isinstance(l, Pt) and isinstance(r, Pt):
             if op == "+":
                 return l.add(r)
@@ -1398,6 +1426,75 @@ class Interp:
                     read.add(t["res"]["id"])
         return pushed, read
 
+    def struct_leaves(self, v, pth, d=0):
+        """(holder struct, field, value, path) for the scalar / integer fields of a struct value (nested structs included)"""
+        out = []
+        if d > 3 or not isinstance(v, Struct):
+            return out
+        for k_, x in list(v.fields.items()):
+            if isinstance(x, Ref):
+                continue
+            if isinstance(x, (Sc, IntV)):
+                out.append((v, k_, x, f"{pth}.{k_}"))
+            elif isinstance(x, Struct):
+                out += self.struct_leaves(x, f"{pth}.{k_}", d + 1)
+        return out
+
+    def mutated_struct_locals(self, body, env):
+        """locals holding a struct that the body may mutate: root of an assigned field path, `&mut` borrow, or receiver /
+        argument of a crate-local call whose parameter is `&mut`"""
+        out = []
+
+        def root_local(n):
+            while n["k"] in ("Field", "Unary", "AddrOf", "Index"):
+                n = n.get("base") or n.get("e")
+                if n is None:
+                    return None
+            return n["res"]["id"] if n["k"] == "Path" and n["res"].get("k") == "Local" else None
+
+        def add(lid):
+            if lid is not None and lid in env and lid not in out and isinstance(self.deref(env[lid]), Struct) and not isinstance(env[lid], Ref):
+                out.append(lid)
+
+        for n in FX.walk(body):
+            k = n["k"]
+            if k in ("Assign", "AssignOp") and n["l"]["k"] in ("Field",):
+                add(root_local(n["l"]))
+            elif k == "AddrOf" and n.get("mut"):
+                add(root_local(n["e"]))
+            elif k in ("MethodCall", "Call"):
+                ci = FX.callee_info(n)
+                p = ci.get("resolved") or ci.get("path") or ""
+                fn = self.F.fns.get(p)
+                args = ([n["recv"]] if k == "MethodCall" else []) + list(n.get("args", []))
+                if fn is not None:
+                    for a_, prm in zip(args, fn["params"]):
+                        if prm["ty"].startswith("&mut "):
+                            add(root_local(a_))
+                elif k == "MethodCall" and (p.endswith(("Assign::add_assign", "Assign::sub_assign", "Assign::mul_assign")) and n["recv"]["k"] == "Field"):
+                    add(root_local(n["recv"]))
+        return out
+
+    def pushes_only_in_nested_loop(self, body, lid):
+        """every push to local `lid` in `body` sits inside a nested loop (and there is at least one)"""
+        def pushes(n):
+            out = []
+            for y in FX.walk(n):
+                if y["k"] == "MethodCall" and y["name"] in ("push", "extend", "extend_from_slice", "append"):
+                    t = y["recv"]
+                    while t["k"] in ("Unary", "AddrOf", "Field"):
+                        t = t.get("e") or t.get("base")
+                    if t["k"] == "Path" and t["res"]["k"] == "Local" and t["res"]["id"] == lid:
+                        out.append(id(y))
+            return out
+
+        allp = pushes(body)
+        inner = set()
+        for y in FX.walk(body):
+            if y["k"] == "Loop":
+                inner |= set(pushes(y))
+        return bool(allp) and set(allp) <= inner
+
     def vec_identities(self, env):
         out = {}
 
@@ -1416,8 +1513,9 @@ class Interp:
             visit(v, str(lid), lid)
         return out
 
-    def loop_segment(self, pat, seg, off, body, env, e, itv):
+    def loop_segment(self, pat, seg, off, body, env, e, itv, idx_rec=None):
         where = FX.short(e.get("sp"))
+        idx_rec = idx_rec or {}
         if seg.n == 1:
             # single element: plain execution, no schema needed
             elem = seg.f(sp.Integer(0))
@@ -1457,15 +1555,44 @@ class Interp:
                 pass  # element-wise writes / pushes handled through loop_ctx; effect objects by reference
             else:
                 raise Unanalysable(f"loop-carried variable {name} of kind {cur!r}", where)
+        # scalar / integer fields of local structs the body may mutate (field assignment, `&mut` receiver or argument):
+        # scalars get the same accumulator treatment as scalar locals, integers must come out unchanged
+        fph = {}
+        for lid in self.mutated_struct_locals(body, env):
+            for (holder, key, val, pth) in self.struct_leaves(self.deref(env[lid]), str(lid)):
+                if isinstance(val, Sc):
+                    ph = fresh("ACC_" + key)
+                    fph[(id(holder), key)] = (holder, key, ph, val, pth)
+                    holder.fields[key] = Sc(ph)
+                elif isinstance(val, IntV):
+                    fph[(id(holder), key)] = (holder, key, None, val, pth)
         self.loop_log.append({"n": seg.n, "off": off, "where": where, "fn": self.fn_stack[-1] if self.fn_stack else ""})
-        lc = {"isym": j, "n": seg.n, "off": off, "writes": [], "pushes": [], "elem_updates": [], "where": where, "node": e, "outer_ids": set(env.keys())}
+        lc = {"isym": j, "n": seg.n, "off": off, "writes": [], "pushes": [], "elem_updates": [], "reads": [], "where": where, "node": e, "outer_ids": set(env.keys())}
+        retry_snap = self.snapshot(env) if not idx_rec else None
+        retry_marks = (len(self.draw_log), len(self.recurrences), len(self.loop_log), len(SAFETY_LOG))
+        irec = {}
+        for lid, name in idx_rec.items():
+            cur = self.deref(env[lid])
+            irec[lid] = (name, cur)
+            f = sfun(name)
+            env[lid] = Vec([Seg(isym("inf"), lambda jj, f=f: Sc(f(jj)))])
+        lc["irec_len"] = {lid: cur_.length() for lid, (_, cur_) in irec.items()}
         pushed, read = self.pushed_and_read(body, env)
         rec = {}
+        dbl = {}
+        n_rec0 = len(self.recurrences)
         for lid, name in pushed.items():
             if lid in read:
                 cur = self.deref(env[lid])
                 if not isinstance(cur, Vec):
                     raise Unanalysable(f"recurrence over non-vector {name}", where)
+                if self.pushes_only_in_nested_loop(body, lid) and pow2_eq(cur.length(), self.pow2(off)):
+                    # block doubling: in outer iteration j the vector has 2^(off+j) entries and an inner loop appends as
+                    # many again (invariant re-checked after the body); the inner loop is an ordinary recurrence
+                    dbl[lid] = (name, cur)
+                    f = sfun(name)
+                    env[lid] = Vec([Seg(self.pow2(sp.expand(off + j)), lambda jj, f=f: Sc(f(jj)))])
+                    continue
                 rec[lid] = (name, cur)
                 f = sfun(name)
                 env[lid] = Vec([Seg(isym("inf"), lambda jj, f=f: Sc(f(jj)))])
@@ -1473,6 +1600,8 @@ class Interp:
         old_trace = self.sub_trace()
         vec_before = self.vec_identities(env)
         havoc_before = self.havoc_count
+        do_retry = False
+        retry_lid = None
         try:
             elem = seg.f(j)
             if itv.mut_place is not None:
@@ -1484,19 +1613,64 @@ class Interp:
                 self.run_body(body, env)
             except BreakSignal:
                 raise Unanalysable("break inside a summarised loop", where)
+            except Unanalysable as u_loc:
+                # a read at an index that cannot be placed among the segments of a vector this loop also assigns by
+                # index: try the index-assigned recurrence reading (v[i] = f(v[i-k], ..))
+                bad = getattr(u_loc, "vec", None)
+                lid_w = next((l_ for l_, x_ in env.items() if bad is not None and not isinstance(x_, Ref) and self.deref(x_) is bad), None)
+                assigned = lid_w is not None and any(n_["k"] in ("Assign", "AssignOp") and n_["l"]["k"] == "Index" and FX.strip(n_["l"]["base"]).get("k") == "Path" and FX.strip(n_["l"]["base"])["res"].get("id") == lid_w for n_ in FX.walk(body))
+                clean = not self.trace.items and retry_marks[0] == len(self.draw_log) and self.havoc_count == havoc_before
+                if retry_snap is None or not assigned or not clean:
+                    raise
+                retry_lid = lid_w
+                raise _RetryIndexRec()
             if counter is not None:
                 cv = self.deref(env[counter[0]])
                 if not (isinstance(cv, IntV) and eq(cv.e, counter[1] + counter[2] * (off + j + 1))):
                     raise Unanalysable(f"loop counter is not stepped exactly once per iteration (value after the body: {cv!r})", where)
                 env[counter[0]] = IntV(sp.expand(counter[1] + counter[2] * (off + seg.n)))
+        except _RetryIndexRec:
+            do_retry = True
         finally:
             self.loop_ctx.pop()
             self.bounds = old_bounds
             body_trace = self.trace
             self.trace = old_trace
+        if do_retry:
+            self.restore(env, retry_snap)
+            del self.recurrences[retry_marks[1]:]
+            del self.loop_log[retry_marks[2]:]
+            del SAFETY_LOG[retry_marks[3]:]
+            name_w = next((n_["res"].get("name") for n_ in FX.walk(body) if n_["k"] == "Path" and n_["res"].get("k") == "Local" and n_["res"].get("id") == retry_lid), None) or "v"
+            return self.loop_segment(pat, seg, off, body, env, e, itv, idx_rec={retry_lid: name_w})
+        # a vector written element-wise must not be read at an element another iteration writes
+        jb = old_bounds.with_ub(j, seg.n)
+        for base_ref, idx_w, v_w, node_w in lc["writes"]:
+            if base_ref.root_id in irec:
+                continue
+            bw = self.deref(base_ref.get())
+            wbase = sp.expand(idx_w - j)
+            for (rv, ri, rn) in lc["reads"]:
+                if rv is not bw:
+                    continue
+                if isinstance(ri, IntV) and (eq(ri.e, idx_w) or lt(ri.e, wbase, jb) or le(sp.expand(wbase + seg.n), ri.e, jb)):
+                    continue  # the element written in this very iteration, or one no iteration writes
+                # cross-iteration dependence: retry as an index-assigned recurrence (v[i] = f(v[i-k], ..)) when the
+                # loop fills the vector to its end, writes once per iteration and had no other effects so far
+                lid_w = next((l_ for l_, x_ in env.items() if not isinstance(x_, Ref) and self.deref(x_) is bw), None)
+                same = [w_ for w_ in lc["writes"] if w_[0].root_id == base_ref.root_id]
+                clean = not body_trace.items and retry_marks[0] == len(self.draw_log) and self.havoc_count == havoc_before
+                if retry_snap is not None and lid_w is not None and len(same) == 1 and clean and eq(sp.expand(wbase + seg.n), bw.length()) and not wbase.has(j):
+                    self.restore(env, retry_snap)
+                    del self.recurrences[retry_marks[1]:]
+                    del self.loop_log[retry_marks[2]:]
+                    del SAFETY_LOG[retry_marks[3]:]
+                    name_w = next((n_["res"].get("name") for n_ in FX.walk(body) if n_["k"] == "Path" and n_["res"].get("k") == "Local" and n_["res"].get("id") == lid_w), None) or "v"
+                    return self.loop_segment(pat, seg, off, body, env, e, itv, idx_rec={lid_w: name_w})
+                raise Unanalysable(f"element {getattr(ri, 'e', ri)} of a vector is read in the iteration that writes element {idx_w}: its value depends on earlier iterations", FX.short((rn or {}).get("sp")) or where)
         # vector state carried across iterations must only change through index-aligned writes / pushes
         for pth, (obj, lid) in vec_before.items():
-            if lid in rec or self.havoc_count != havoc_before:
+            if lid in rec or lid in dbl or lid in irec or self.havoc_count != havoc_before:
                 continue
             now = self.vec_identities(env).get(pth)
             if now is not None and now[0] is not obj and not val_eq(now[0], obj):
@@ -1504,6 +1678,18 @@ class Interp:
         # classify carried scalars
         subst = {}
         finals = {}
+        for (holder, key, ph, init, pth) in fph.values():
+            new = self.deref(holder.fields.get(key))
+            if ph is None:
+                if self.havoc_count != havoc_before:
+                    continue  # the body's effect was summarised for all iterations by a havoc hook (user callbacks)
+                if not (isinstance(new, IntV) and eq(new.e, init.e)):
+                    raise Unanalysable(f"integer field `{pth}` of a struct is updated inside a summarised loop", where)
+                continue
+            if not isinstance(new, Sc):
+                raise Unanalysable(f"scalar field `{pth}` changes kind inside a loop", where)
+            subst[ph], fin = self.scalar_acc_schema(init, ph, sp.expand(new.e), j, seg.n, where, pth)
+            holder.fields[key] = fin
         for lid, ph in placeholders.items():
             new = self.deref(env[lid])
             init = inits[lid]
@@ -1554,9 +1740,33 @@ class Interp:
         def fix(v, at=None):
             return subst_val(v, subst) if subst else v
 
+        # index-assigned recurrences: v[p + j] = f(v[..earlier..]) filling v to its end
+        for lid, (name, old) in irec.items():
+            mine = [w_ for w_ in lc["writes"] if w_[0].root_id == lid]
+            if len(mine) != 1:
+                raise Unanalysable(f"recurrence vector {name} must be assigned exactly once per iteration", where)
+            lc["writes"] = [w_ for w_ in lc["writes"] if w_[0].root_id != lid]
+            base_ref, idx_w, v_w, node_w = mine[0]
+            wbase = sp.expand(idx_w - j)
+            if wbase.has(j) or not eq(sp.expand(wbase + seg.n), old.length()):
+                raise Unanalysable(f"recurrence vector {name}: the loop does not fill it to its end", where)
+            prefix = old.take(wbase, old_bounds)
+            self.recurrences.append({"name": name, "prefix": prefix, "n": seg.n, "off": off, "isym": j, "value": fix(v_w), "pos": sp.expand(idx_w), "where": where, "fn": self.fn_stack[-1] if self.fn_stack else "", "by_index": True})
+            env[lid] = Vec.atom(name, old.length())
         # element-wise writes: vector[off + j (+c)] = value(j)
         for base_ref, idx, v, node in lc["writes"]:
             wbase = sp.expand(idx - j)
+            if wbase.has(j) and not sp.expand(idx + j).has(j):
+                # descending: iteration j writes position top - j; position lo + jj is written by iteration n-1-jj
+                top = sp.expand(idx + j)
+                lo_ = sp.expand(top - seg.n + 1)
+                b = self.deref(base_ref.get())
+                v2 = fix(v)
+                pre, rest = b.split_at(lo_, old_bounds)
+                mid, post = rest.split_at(seg.n, old_bounds)
+                newseg = Seg(seg.n, (lambda jj, v2=v2, j=j, n_=seg.n: subst_val(v2, {j: sp.expand(n_ - 1 - jj)})))
+                base_ref.set(Vec(pre.segs + [newseg] + post.segs))
+                continue
             if wbase.has(j):
                 raise Unanalysable(f"indexed write at {idx} inside loop over [{off},{off}+{seg.n}) is not affine in the loop index", where)
             b = self.deref(base_ref.get())
@@ -1565,6 +1775,20 @@ class Interp:
             mid, post = rest.split_at(seg.n, old_bounds)
             newseg = Seg(seg.n, (lambda jj, v2=v2, j=j: subst_val(v2, {j: jj})))
             base_ref.set(Vec(pre.segs + [newseg] + post.segs))
+        for lid, (name, old) in dbl.items():
+            now = self.deref(env[lid])
+            new_recs = [r_ for r_ in self.recurrences[n_rec0:] if r_["name"] == name]
+            if not (isinstance(now, Vec) and pow2_eq(now.length(), self.pow2(sp.expand(off + j + 1))) and len(new_recs) == 1 and not [p_ for p_ in lc["pushes"] if p_[0].root_id == lid]):
+                raise Unanalysable(f"vector {name} is extended by a nested loop but does not double per iteration (length after the body: {now.length() if isinstance(now, Vec) else now!r})", where)
+            new_recs[0]["doubling"] = {"isym": j, "n": seg.n, "off": off, "prefix": old}
+            fin = self.pow2(sp.expand(off + seg.n))
+            # a passed guard `x == 2^k` gives the same length a simpler name (keeps later index arithmetic in terms of x)
+            facts = [(sp.expand(a_), sp.expand(b_)) for a_, b_ in self.bounds.facts]
+            for a_, b_ in facts:
+                if eq(b_, fin) and (b_, a_) in facts and not a_.has(sfun("pow2")):
+                    fin = a_
+                    break
+            env[lid] = Vec.atom(name, fin)
         for lid, (name, old) in rec.items():
             mine = [(r, v, nd) for (r, v, nd) in lc["pushes"] if r.root_id == lid]
             if len(mine) != 1:
